@@ -87,3 +87,117 @@ def fk_check(b) -> list:
 
     with b.engine.connect() as conn:
         return [tuple(r) for r in conn.execute(text("PRAGMA foreign_key_check")).fetchall()]
+
+
+# ---------------------------------------------------------------------------- faults
+class Crash(BaseException):
+    """Simulated process death at a backend write (BaseException: nothing in redun catches it)."""
+
+
+class FaultySession:
+    """Wraps session.commit of a backend: counts commits, labels each with the redun.backends.db
+    frames on the stack, and injects one fault at commit number `at` (1-based):
+      'before' — die before the commit reaches the database (pending changes are lost),
+      'after'  — die right after it,
+      'operr'  — raise one sqlalchemy OperationalError instead of committing (db_retry path).
+    """
+
+    def __init__(self, backend, at=None, kind=None):
+        self.backend = backend
+        self.at = at
+        self.kind = kind
+        self.count = 0
+        self.sites: list = []
+        self.fired = None
+        self._orig = backend.session.commit
+        backend.session.commit = self._commit
+
+    def site(self) -> str:
+        import sys
+
+        names = []
+        f = sys._getframe(2)
+        while f is not None:
+            fn = f.f_code.co_filename
+            if fn.endswith("backends/db/__init__.py") and f.f_code.co_name not in ("wrapper", "wrapped", "_commit"):
+                names.append(f.f_code.co_name)
+            elif fn.endswith("redun/scheduler.py") and f.f_code.co_name.startswith(("_resolve", "_reject", "_exec_job", "_done_job", "run", "catch", "apply_tags", "set_cache")):
+                names.append("S." + f.f_code.co_name)
+                break
+            f = f.f_back
+        return "<".join(names) or "?"
+
+    def _commit(self):
+        self.count += 1
+        s = self.site()
+        nth = sum(1 for x in self.sites if x == s) + 1
+        self.sites.append(s)
+        if self.at is not None and self.count == self.at and self.fired is None:
+            self.fired = f"{s}#{nth}"
+            if self.kind == "before":
+                raise Crash(self.fired)
+            if self.kind == "after":
+                self._orig()
+                raise Crash(self.fired)
+            if self.kind == "operr":
+                from sqlalchemy.exc import OperationalError
+
+                raise OperationalError("COMMIT", {}, Exception("injected transient failure"))
+        return self._orig()
+
+    def remove(self):
+        try:
+            self.backend.session.commit = self._orig
+        except Exception:  # noqa: BLE001
+            pass
+
+
+def reopen(backend):
+    """Simulate process exit + restart: drop the session without committing, dispose the engine,
+    open the file again."""
+    path = backend.db_uri[len("sqlite:///"):]
+    try:
+        if backend.session is not None:
+            backend.session.rollback()
+    except Exception:  # noqa: BLE001
+        pass
+    close_backend(backend)
+    return open_backend(path)
+
+
+def dump(backend) -> dict:
+    """Structural, comparable contents of the database (ids and timestamps normalised away)."""
+    from sqlalchemy import text
+
+    out = {}
+    with backend.engine.connect() as conn:
+        def rows(sql):
+            return [tuple(r) for r in conn.execute(text(sql)).fetchall()]
+
+        out["value"] = sorted(rows("select value_hash, type, format from value"))
+        out["task"] = sorted(rows("select hash, name, namespace from task"))
+        out["call_node"] = sorted(rows("select call_hash, task_hash, args_hash, value_hash from call_node"))
+        out["call_edge"] = sorted(rows("select parent_id, child_id, call_order from call_edge"))
+        out["argument"] = sorted((r[0], r[1], r[2], str(r[3]), str(r[4])) for r in rows(
+            "select arg_hash, call_hash, value_hash, arg_position, arg_key from argument"))
+        out["argument_result"] = sorted(rows("select arg_hash, result_call_hash from argument_result"))
+        out["subtree"] = sorted(rows("select call_hash, task_hash from call_subtree_task"))
+        out["evaluation"] = sorted(rows("select eval_hash, task_hash, args_hash, value_hash from evaluation"))
+        out["subvalue"] = sorted(rows("select value_hash, parent_value_hash from subvalue"))
+        out["job"] = sorted((str(r[0]), str(r[1]), str(r[2]), r[3] is not None, str(r[4])) for r in rows(
+            "select j.task_hash, j.cached, j.call_hash, j.end_time, p.call_hash from job j left join job p on j.parent_id = p.id"))
+        out["execution"] = [len(rows("select id from execution"))]
+        out["tag"] = sorted((str(r[0]), str(r[1]), str(r[2]), str(r[3])) for r in rows(
+            "select entity_type, key, value, is_current from tag"))
+    return out
+
+
+def dump_diff(a: dict, b: dict) -> list:
+    diffs = []
+    for k in sorted(set(a) | set(b)):
+        if a.get(k) != b.get(k):
+            sa, sb = a.get(k, []), b.get(k, [])
+            only_a = [x for x in sa if x not in sb][:2]
+            only_b = [x for x in sb if x not in sa][:2]
+            diffs.append(f"{k}: {len(sa)} vs {len(sb)} rows; only-first {only_a}; only-second {only_b}")
+    return diffs
